@@ -68,17 +68,24 @@ def gen_sm_category(rng, kind):
     return data, [e[2] & 0xf for e in ents]
 
 
-def gen_entries(rng, used, maxn):
+# single-byte count / length fields of the categories at the edges of their range (sign bit, maximum)
+EDGE_BYTES = [127, 128, 255]
+
+
+def gen_entries(rng, used, maxn, counts=None, edge=False):
     """well-formed list of (index, subindex, bits) for the PDOs of one direction: entries of 8 or
-    more bits are byte aligned and 8/16/32/64 bits wide; index 0 = padding; keys distinct"""
-    npdo = rng.choice([0, 1, 1, 2, 3])
+    more bits are byte aligned and 8/16/32/64 bits wide; index 0 = padding; keys distinct.
+    counts: the number of entries of each PDO (default: 0..3 PDOs of 0..maxn entries);
+    edge: subindices and padding lengths prefer the edge values of a byte"""
+    if counts is None:
+        counts = [rng.randrange(0, maxn + 1) for _ in range(rng.choice([0, 1, 1, 2, 3]))]
     pdos = []
     bitpos = 0
-    for _ in range(npdo):
+    for n in counts:
         ents = []
-        for _ in range(rng.randrange(0, maxn + 1)):
+        for _ in range(n):
             r = rng.random()
-            if bitpos % 8 == 0 and r < 0.5:
+            if bitpos % 8 == 0 and r < (0.2 if n > 100 else 0.5):
                 bits = rng.choice([8, 16, 16, 32, 64])
                 pad = rng.random() < 0.1
             elif r < 0.8:
@@ -87,13 +94,16 @@ def gen_entries(rng, used, maxn):
             else:               # padding up to the byte boundary (or a whole padding byte/word)
                 bits = (8 - bitpos % 8) if bitpos % 8 else rng.choice([8, 16])
                 pad = True
+            if pad and (edge or rng.random() < 0.05) and rng.random() < 0.5:
+                bits = rng.choice(EDGE_BYTES)       # a padding entry may have any length
             if pad:
                 key = (0, rng.choice([0, 0, rng.randrange(256)]))
             else:
                 while True:
                     key = (rng.choice([rng.randrange(1, 0x10000), 0x6000 + 16 * rng.randrange(8),
                                        0x7000 + 16 * rng.randrange(8)]),
-                           rng.randrange(256) if rng.random() < 0.3 else rng.randrange(1, 20))
+                           rng.choice([0] + EDGE_BYTES) if rng.random() < (0.5 if edge else 0.05)
+                           else rng.randrange(256) if rng.random() < 0.3 else rng.randrange(1, 20))
                     if key not in used:
                         break
                 used.add(key)
@@ -121,7 +131,7 @@ BOUNDARY_WORDS = [0, 1, 2]
 BOUNDARY_POS = ["first", "middle", "last"]
 
 
-def gen_case(rng, kind, size="normal", inject=None):
+def gen_case(rng, kind, size="normal", inject=None, counts=None):
     """kind: 'plain' (no SM/PDO categories), 'eeprom' (PDO layout from the EEPROM), 'sdo'.
     inject = (type, words, position, fill): one more category with exactly this header is put
     first / in the middle / last in the category list (body bytes: fill, or random if None)"""
@@ -152,8 +162,10 @@ def gen_case(rng, kind, size="normal", inject=None):
         smdata, modes = gen_sm_category(rng, kind)
         cats.append((41, smdata))
         used = set()
-        outp = gen_entries(rng, used, 3 if size == "small" else 6)
-        inp = gen_entries(rng, used, 3 if size == "small" else 6)
+        # counts = (entry counts of the output PDOs or None, same for the input PDOs)
+        co, ci = counts or (None, None)
+        outp = gen_entries(rng, used, 3 if size == "small" else 6, co, counts is not None)
+        inp = gen_entries(rng, used, 3 if size == "small" else 6, ci, counts is not None)
         smo = modes.index(4) if 4 in modes else 2
         smi = modes.index(0) if 0 in modes else 3
         if kind == "sdo":
@@ -544,6 +556,33 @@ def build_cases(ctx):
                 c["nscripts"] = 2 if q else 4
                 cases.append(c)
                 n += 1
+    # single-byte count / length fields at the edges of a byte, systematically: one PDO of a
+    # category with 127 / 128 / 255 (...) entries, alone, before or behind a small PDO, in the
+    # RxPDO and in the TxPDO category (EEPROM source), and as a mapping object (SDO source);
+    # subindices and padding lengths of these images prefer 0 / 127 / 128 / 255 as well
+    n = 0
+    for cnt in EDGE_BYTES + ([] if q else [129, 136, 248]):
+        for cat in (51, 50):
+            for place in ("only", "first", "last"):
+                rng = random.Random(f"C17/bytefield/{cnt}/{cat}/{place}")
+                big = {"only": [cnt], "first": [cnt, rng.randrange(1, 4)],
+                       "last": [rng.randrange(1, 4), cnt]}[place]
+                kind = "sdo" if n % 6 == 5 else "eeprom"
+                c = gen_case(rng, kind, "small", counts=(big, None) if cat == 51 else (None, big))
+                c["gen"] = f"bytefield/{cnt}/{cat}/{place}/{kind}"
+                c["bigpdo"] = [cnt, cat, place]
+                c["nscripts"] = 2 if q else 4
+                cases.append(c)
+                n += 1
+    # the low byte of the category length (in words) at its edges
+    for nw in EDGE_BYTES + [256]:
+        rng = random.Random(f"C17/wordlen/{nw}")
+        c = gen_case(rng, "eeprom", "small", inject=(rng.choice([30, 60, 0x0800, 0x9000]), nw,
+                                                     rng.choice(BOUNDARY_POS), None))
+        c["gen"] = f"wordlen/{nw}"
+        c["inject"] = [c["cat_types"][0], nw, "?"]
+        c["nscripts"] = 2
+        cases.append(c)
     nextra = 12 if q else 120
     for i in range(nextra):
         kind = ctx.rng.choice(["plain", "eeprom", "eeprom", "eeprom", "sdo"])
@@ -717,7 +756,7 @@ def run(ctx):
                          od=c.get("od"), od_zero=c.get("od_zero"), modes=c["modes"], script=s,
                          failed=bad, mode=r["mode"], apply=r.get("apply"),
                          image_len=len(c["image"]), ncat=c["ncat"], cat_types=c["cat_types"],
-                         cat_words=c["cat_words"], inject=c.get("inject"),
+                         cat_words=c["cat_words"], inject=c.get("inject"), bigpdo=c.get("bigpdo"),
                          eeprom_status=r["eeprom"]["status"], sm_status=r["sm"]["status"],
                          pdos_status=r["pdos"]["status"],
                          exc=[r[p].get("exc") for p in ("eeprom", "sm", "pdos") if r[p].get("exc")],
